@@ -328,8 +328,19 @@ impl<C: Suite> Interp<C> {
             "tamper_seed" => {
                 let mut b = self.seed_bytes(&st["src"])?;
                 let d = st["d"].as_u64().unwrap_or(1) as u8;
-                if let Some(l) = b.last_mut() {
-                    *l = l.wrapping_add(d);
+                match st.get("how").and_then(|x| x.as_str()).unwrap_or("last") {
+                    "last" => {
+                        if let Some(l) = b.last_mut() {
+                            *l = l.wrapping_add(d);
+                        }
+                    }
+                    "append" => b.push(d),
+                    "append0" => b.push(0),
+                    "trunc" => {
+                        b.pop();
+                    }
+                    "empty" => b.clear(),
+                    other => return se(format!("tamper_seed: bad how {other}")),
                 }
                 self.put(&st["out"], Obj::Bytes(b))?;
                 Ok(json!({"ok": true}))
